@@ -169,3 +169,22 @@ where
     }
     Ok(num_read)
 }
+
+// Verification hooks (compiled only with `--cfg markschl_seq_io_verif`):
+// public wrappers around the private helpers of this module.
+#[cfg(markschl_seq_io_verif)]
+#[doc(hidden)]
+pub fn verif_trim_cr(line: &[u8]) -> &[u8] {
+    trim_cr(line)
+}
+
+#[cfg(markschl_seq_io_verif)]
+#[doc(hidden)]
+pub fn verif_fill_buf<R>(
+    reader: &mut buffer_redux::BufReader<R, buffer_redux::policy::StdPolicy>,
+) -> io::Result<usize>
+where
+    R: io::Read,
+{
+    fill_buf(reader)
+}
